@@ -1,0 +1,96 @@
+//go:build verif
+// +build verif
+
+package quadtree
+
+import (
+	"math"
+
+	"github.com/paulmach/orb"
+)
+
+// This file is only compiled with the `verif` build tag. It gives the
+// verification harness read-only access to the node structure and a hook
+// point inside the tree traversal. Nothing here is used by the library.
+
+// VerifVisitHook, when set, is called at the start of every node visit of
+// every query (Find, Matching, KNearest*, InBound*, and the search done by Remove).
+var VerifVisitHook func()
+
+func verifVisit() {
+	if h := VerifVisitHook; h != nil {
+		h()
+	}
+}
+
+// VerifWalk calls fn for every node of the tree in pre-order with the node's
+// depth, the cell it is responsible for, its value (may be nil) and
+// which of its four children exist.
+func (q *Quadtree) VerifWalk(fn func(depth int, cell orb.Bound, v orb.Pointer, kids [4]bool)) {
+	if q.root == nil {
+		return
+	}
+	verifWalk(q.root, 0, q.bound.Min[0], q.bound.Max[0], q.bound.Min[1], q.bound.Max[1], fn)
+}
+
+func verifWalk(n *node, depth int, left, right, bottom, top float64, fn func(int, orb.Bound, orb.Pointer, [4]bool)) {
+	var kids [4]bool
+	for i := range n.Children {
+		kids[i] = n.Children[i] != nil
+	}
+	fn(depth, orb.Bound{Min: orb.Point{left, bottom}, Max: orb.Point{right, top}}, n.Value, kids)
+
+	cx := (left + right) / 2.0
+	cy := (bottom + top) / 2.0
+	if n.Children[0] != nil {
+		verifWalk(n.Children[0], depth+1, left, cx, cy, top, fn)
+	}
+	if n.Children[1] != nil {
+		verifWalk(n.Children[1], depth+1, cx, right, cy, top, fn)
+	}
+	if n.Children[2] != nil {
+		verifWalk(n.Children[2], depth+1, left, cx, bottom, cy, fn)
+	}
+	if n.Children[3] != nil {
+		verifWalk(n.Children[3], depth+1, cx, right, bottom, cy, fn)
+	}
+}
+
+// VerifHash returns a hash of the tree's shape, the tree bound and, through
+// id, the identity of the pointer stored in every node. Two calls return
+// the same number iff no node was added, removed, moved or had its value replaced
+// (up to hash collisions).
+func (q *Quadtree) VerifHash(id func(orb.Pointer) uint64) uint64 {
+	h := uint64(14695981039346656037)
+	mix := func(v uint64) {
+		for i := 0; i < 8; i++ {
+			h ^= v & 0xff
+			h *= 1099511628211
+			v >>= 8
+		}
+	}
+	mix(math.Float64bits(q.bound.Min[0]))
+	mix(math.Float64bits(q.bound.Min[1]))
+	mix(math.Float64bits(q.bound.Max[0]))
+	mix(math.Float64bits(q.bound.Max[1]))
+	q.VerifWalk(func(depth int, cell orb.Bound, v orb.Pointer, kids [4]bool) {
+		mix(uint64(depth))
+		k := uint64(0)
+		for i, b := range kids {
+			if b {
+				k |= 1 << uint(i)
+			}
+		}
+		mix(k)
+		if v == nil {
+			mix(0)
+		} else {
+			mix(1)
+			mix(id(v))
+			p := v.Point()
+			mix(math.Float64bits(p[0]))
+			mix(math.Float64bits(p[1]))
+		}
+	})
+	return h
+}
